@@ -457,7 +457,9 @@ func (nc *nodeCase) gasEpilogue() {
 	bv := nc.branchView(nc.nm.name(best.Hash()))
 	var ins []string
 	var total uint64
-	need := heavyN*(heavyFee+heavyOut) + 2*ledgerFee
+	const fillerN = 20
+	const fillerAmt = uint64(3000000)
+	need := heavyN*(heavyFee+heavyOut) + fillerN*fillerAmt + 2*ledgerFee
 	for _, in := range nc.spendable(bv, best.Height+1) {
 		if o := nc.ln.outs[in]; o.kind == 'n' {
 			ins = append(ins, in)
@@ -486,7 +488,10 @@ func (nc *nodeCase) gasEpilogue() {
 		for i := 0; i < heavyN; i++ {
 			data.Outputs = append(data.Outputs, types.NewOriginalTxOutput(*consensus.BTMAssetID, heavyFee+heavyOut, prog, nil))
 		}
-		data.Outputs = append(data.Outputs, types.NewOriginalTxOutput(*consensus.BTMAssetID, total-heavyN*(heavyFee+heavyOut)-ledgerFee, []byte{0x51}, nil))
+		for i := 0; i < fillerN; i++ {
+			data.Outputs = append(data.Outputs, types.NewOriginalTxOutput(*consensus.BTMAssetID, fillerAmt, []byte{0x51, 0x51, 0x87}, nil)) // TRUE TRUE EQUAL
+		}
+		data.Outputs = append(data.Outputs, types.NewOriginalTxOutput(*consensus.BTMAssetID, total-heavyN*(heavyFee+heavyOut)-fillerN*fillerAmt-ledgerFee, []byte{0x51}, nil))
 		return finalizeTx(data)
 	}
 	mkHeavy := func(split *types.Tx, i int) *types.Tx {
@@ -529,11 +534,37 @@ func (nc *nodeCase) gasEpilogue() {
 	if nc.proposeRaw("gas epilogue (split transaction in the pool)") == nil {
 		return
 	}
+	var heavies []*types.Tx
 	for i := 0; i < heavyN; i++ {
-		n.chain.ValidateTx(mkHeavy(split, i))
+		h := mkHeavy(split, i)
+		heavies = append(heavies, h)
+		n.chain.ValidateTx(h)
+	}
+	// cheap independent transactions: they push the children below into a LATER validation batch
+	// than the heavy transaction that no longer fits
+	for i := 0; i < fillerN; i++ {
+		id := *split.ResultIds[heavyN+i]
+		e := split.Entries[id].(*bc.OriginalOutput)
+		data := types.TxData{Version: 1}
+		data.Inputs = append(data.Inputs, types.NewSpendInput(nil, *e.Source.Ref, *e.Source.Value.AssetId, e.Source.Value.Amount, e.Ordinal, e.ControlProgram.Code, e.StateData))
+		data.Outputs = append(data.Outputs, types.NewOriginalTxOutput(*consensus.BTMAssetID, fillerAmt/2, []byte{0x51}, nil))
+		time.Sleep(time.Millisecond)
+		n.chain.ValidateTx(finalizeTx(data))
+	}
+	// cheap children of the LAST heavy transactions (the ones that will not fit into the first
+	// block): a child may be packed only together with its parent
+	for i := heavyN - 8; i < heavyN; i++ {
+		h := heavies[i]
+		id := *h.ResultIds[0]
+		e := h.Entries[id].(*bc.OriginalOutput)
+		data := types.TxData{Version: 1}
+		data.Inputs = append(data.Inputs, types.NewSpendInput(nil, *e.Source.Ref, *e.Source.Value.AssetId, e.Source.Value.Amount, e.Ordinal, e.ControlProgram.Code, e.StateData))
+		data.Outputs = append(data.Outputs, types.NewOriginalTxOutput(*consensus.BTMAssetID, heavyOut/2, []byte{0x51}, nil))
+		time.Sleep(time.Millisecond)
+		n.chain.ValidateTx(finalizeTx(data))
 	}
 	nc.c.Count("gas-epilogues")
-	for round := 0; round < 4; round++ {
+	for round := 0; round < 5; round++ {
 		blk := nc.proposeRaw(fmt.Sprintf("gas epilogue: %d transactions of maximal gas in the pool (more than one block admits)", heavyN))
 		if blk == nil {
 			return
